@@ -315,8 +315,51 @@ def sweep_models(rng, which):
     return out
 
 
+def special_models(rng):
+    """models with relations between their records that random generation does not produce"""
+    out = []
+    # (1) a shape on a mesh that lies late in a long index list: start index + index count of the mesh cross 65 536 (a large model with
+    #     morph targets); shapes on meshes that do not start at index 0 are observed, not asserted (ASSUMPTIONS) - but must parse
+    for _ in range(8):
+        m = gen_model(rng, 60)
+        if len(m["lods"][0]) >= 2:
+            break
+    else:
+        m = None
+    if m is not None:
+        l0 = m["lods"][0]
+        a, b = l0[0], l0[1]
+        a["indices"] = [rng.randrange(max(a["vcount"], 1)) for _ in range(rng.choice([57000, 60000, 65535 - 100]))]
+        a["submeshes"] = [(len(a["indices"]),) + tuple(a["submeshes"][0][1:])]
+        els, strides = gen_decl(rng, b["nstreams"], None, need_position=[mdl.SINGLE3, mdl.SINGLE4])
+        b["elements"], b["strides"] = els, strides
+        b["vcount"] = max(b["vcount"], 4)
+        b["streams"] = [rng.randbytes(b["vcount"] * strides[s_]) for s_ in range(b["nstreams"])]
+        for (s_, off, t, u, _) in els:
+            if u == mdl.POSITION:
+                for v in range(b["vcount"]):
+                    n = 3 if t == mdl.SINGLE3 else 4
+                    struct.pack_into("<%dI" % n, b["streams"][s_], 0, *[nice_f32(rng) for _ in range(n)]) if False else None
+        b["streams"] = [bytes(x) for x in b["streams"]]
+        b["indices"] = [rng.randrange(b["vcount"]) for _ in range(rng.choice([6000, 9000, 65536 - len(a["indices"]) % 65536]))]
+        b["submeshes"] = [(len(b["indices"]),) + tuple(b["submeshes"][0][1:])]
+        b["shape_mesh"] = True
+        for me in l0[2:]:
+            pass
+        vals = [(rng.randrange(len(b["indices"])), rng.randrange(b["vcount"])) for _ in range(3)]
+        m["shapes"] = [dict(name=NAMES[0], per_lod=[[(1, vals)], [], []])]
+        for li in range(1, len(m["lods"])):
+            for me in m["lods"][li]:
+                me["shape_mesh"] = False
+        out.append(("shape-on-late-mesh:start+count>=65536", m))
+    return out
+
+
 def shard(ctx):
     rng, P = ctx.rng, ctx.params
+    if ctx.index % 4 == 1:
+        for label, m in special_models(rng):
+            run_model(ctx, m, label)
     for i in range(P["n"]):
         m = gen_model(rng, P["maxv"], wide=True)
         run_model(ctx, m, "random")
